@@ -364,9 +364,16 @@ class CallMixin(ExecBase):
         ty = recv.get("ty")
         h = getattr(s, "m_" + name, None)
         if h is not None and (ty in ("list", "deque", "tuple", "dict", "str", None)):
-            r = h(p, recv, args, kwargs, node)
+            ok, bad = s.fork(p, Val.is_ref(recv.t))
+            res = []
+            if bad is not None:
+                res.append(s.raise_new(bad, "AttributeError", site=f"{name}@{getattr(node, 'lineno', '?')} on a non-object"))
+            if ok is None:
+                return res
+            r = h(ok, recv, args, kwargs, node)
             if r is not None:
-                return r
+                return res + r
+            p = ok
         # fall back: fetch attribute, call the value
         res = []
         for st, p1, fv in s.getattr_(p, recv, name, node):
